@@ -375,18 +375,37 @@ func TestProp_Cursor(t *testing.T) {
 		s.checkBacking(t, true)
 		// after Restore the caller's bytes are the caller's again: calls that only move or report the cursor (they read
 		// nothing) must leave them alone
-		for k := rapid.IntRange(0, 3).Draw(t, "afterRestore"); k > 0; k-- {
-			switch op := rapid.SampledFrom([]string{"Reset", "Pos", "Offset", "Rewind0", "Skip", "Restore"}).Draw(t, "afterop"); op {
+		// ... and the error state is a matter of positions, not of the terminator: it is what it was. The byte that was
+		// borrowed is the caller's again and may hold something new, which a further Restore must not touch.
+		for k := rapid.IntRange(0, 4).Draw(t, "afterRestore"); k > 0; k-- {
+			switch op := rapid.SampledFrom([]string{"Reset", "Pos", "Offset", "Rewind0", "Skip", "Restore", "Err", "PeekErr", "reuse"}).Draw(t, "afterop"); op {
+			case "Err":
+				if got := c.Err(); got != wantErr(0) {
+					t.Fatalf("%s: Err() at pos %d/%d after Restore = %v, want %v (history %v)", s.kind, pos, L, got, wantErr(0), hist)
+				}
+			case "PeekErr":
+				i := rapid.IntRange(0, L-pos+2).Draw(t, "i")
+				if got := c.PeekErr(i); got != wantErr(i) {
+					t.Fatalf("%s: PeekErr(%d) at pos %d/%d after Restore = %v, want %v", s.kind, i, pos, L, got, wantErr(i))
+				}
+			case "reuse":
+				if s.backing != nil && s.n < len(s.backing) {
+					v := rapid.Byte().Draw(t, "reused")
+					s.backing[s.n], s.snapshot[s.n] = v, v
+				}
 			case "Reset":
 				c.Reset()
+				start, pos = 0, 0
 			case "Pos":
 				c.Pos()
 			case "Offset":
 				c.Offset()
 			case "Rewind0":
 				c.Rewind(0)
+				pos = start
 			case "Skip":
 				c.Skip()
+				start = pos
 			case "Restore":
 				c.Restore()
 			}
